@@ -2,7 +2,8 @@
 
  1. TLC model-checks spec/ThreadQueue/ThreadImpl.tla (system/Thread.cpp as coded, one action per hooked operation: queue
     critical sections, signal, drain, block, wake, start, entry check, socket close, join; both signalling mechanisms;
-    an extra sender thread; restart in the thorough tier): Fifo, PerSenderOrder, RepliesInOrder and, under weak fairness of
+    an extra sender thread; waits with and without a deadline on both sides - the default internal loop and the loop of
+    testthread.cpp; select() interrupted by a signal; restart in the thorough tier): Fifo, PerSenderOrder, RepliesInOrder and, under weak fairness of
     the library's steps, NoLostWakeup, ShutdownCompletes, Delivered, WaitReturns.  A deliberately wrong variant of the
     specification (signal when the queue length becomes 2) must violate NoLostWakeup (vacuity guard).
  2. code -> spec: seeded random owner programs on a real muscle::Thread under the controlled scheduler (every hooked
@@ -13,7 +14,7 @@
 import concurrent.futures as cf, os, re
 import vlib
 
-ACTIONS = ["Enq", "Sig", "Drain", "Deq"]
+ACTIONS = ["Enq", "Sig", "Drain", "Deq"]     # + WakeSock / WakeWC, WakeTimeout (a deadline passes), Interrupt (EINTR, socket mode), OWaitTimed
 
 
 def cfg(name, spec, sockets, nmsgs, nextra, rounds, polls, invs=None, props=None, mutation="none", record=False, extra="", tloops="{FALSE}", intr=0):
@@ -37,10 +38,10 @@ def run(v, tier, seed):
     def model_check(sockets):
         rounds, nm = (1, 2) if tier == "quick" else (2, 2)
         name = cfg("gen_MC_%d.cfg" % int(sockets), "FairSpec", sockets, nm, 1, rounds, 1, ["Fifo", "PerSenderOrder", "RepliesInOrder"],
-                   ["NoLostWakeup", "ShutdownCompletes", "Delivered", "WaitReturns"])
+                   ["NoLostWakeup", "ShutdownCompletes", "Delivered", "WaitReturns"], tloops="{TRUE, FALSE}", intr=(1 if sockets else 0))
         r = vlib.tlc("ThreadImpl", name, "ThreadQueue", coverage=True, workers=6, timeout=3400, heap="10g")
         vlib.require_ok(r, "ThreadImpl model check sockets=%s" % sockets)
-        vlib.require_coverage(r, [a for a in ACTIONS if not (a == "Drain" and not sockets)] + (["WakeSock"] if sockets else ["WakeWC"]), "ThreadImpl sockets=%s" % sockets)
+        vlib.require_coverage(r, [a for a in ACTIONS if not (a == "Drain" and not sockets)] + (["WakeSock", "Interrupt"] if sockets else ["WakeWC"]) + ["WakeTimeout"], "ThreadImpl sockets=%s" % sockets)
         return r
 
     def reach(sockets):
@@ -102,6 +103,8 @@ def run(v, tier, seed):
            "exhaustive": False, "model_runs": mc_notes, "samples": samples}
     assumptions = ["sequential consistency: the scheduler serialises threads at the hooked operations; weak-memory effects are out of scope",
                    "recorded traces given to TLC keep queue critical sections atomic (no pre-emption while a muscle Mutex is held); all other executions are pre-empted at every hooked operation",
-                   "the owner only blocks for a reply when one is certain to come, and an extra sender stops sending once the shutdown request is queued (the property is about Messages sent before it)",
+                   "waits with a deadline use a deadline that never passes by itself; the scheduler fires it either at any time or (3 executions in 4) only when no thread can run otherwise - then a receiver that needs its deadline although a Message is queued for it counts as a lost wake-up",
+                   "a signal interrupting select() is modelled at the hook in front of it (the wait returns B_TIMED_OUT, as SocketMultiplexer + WaitForNextMessageAux do on EINTR); no real signals are sent in the scheduled stages",
+                   "the owner only blocks without a deadline for a reply when one is certain to come, and an extra sender stops sending once the shutdown request is queued (the property is about Messages sent before it)",
                    "socketpair / select / std::condition_variable are trusted; the scheduler only lets a thread into them when they cannot block"]
     return "model_checking", cov, assumptions
